@@ -12,6 +12,7 @@ macro_rules! dispatch {
     ($id:expr, $w:ident => $body:expr) => {
         match $id {
             "C01" => { let $w = &ledger::determinism::C01; $body }
+            "C07" => { let $w = &ledger::c07::C07; $body }
             lid if ledger::static_id(lid).is_some() => {
                 let lw = ledger::LedgerCheck { id: ledger::static_id(lid).unwrap() };
                 let $w = &lw;
@@ -32,7 +33,7 @@ macro_rules! dispatch {
     };
 }
 
-pub const ALL: &[&str] = &["C01", "C02", "C03", "C04", "C05", "C06", "C11", "C12", "C13", "C14", "C15", "C17", "C18", "C19"];
+pub const ALL: &[&str] = &["C01", "C02", "C03", "C04", "C05", "C06", "C07", "C11", "C12", "C13", "C14", "C15", "C17", "C18", "C19"];
 
 fn usage() -> i32 {
     eprintln!("usage: verif-sim check <ID> [quick|thorough] | replay <file> | selftest [runs] | list");
